@@ -1226,11 +1226,16 @@ class RTCSctpTransport(AsyncIOEventEmitter):
 
         # handle gap blocks
         loss = False
-        if chunk.gaps:
+        if chunk.gaps and self._sent_queue:
+            # only outstanding TSNs matter, do not expand gap blocks beyond them
+            max_pos = (
+                self._sent_queue[-1].tsn - chunk.cumulative_tsn
+            ) % SCTP_TSN_MODULO
+
             seen = set()
             highest_seen_tsn = chunk.cumulative_tsn
             for gap in chunk.gaps:
-                for pos in range(gap[0], gap[1] + 1):
+                for pos in range(gap[0], min(gap[1], max_pos) + 1):
                     highest_seen_tsn = (chunk.cumulative_tsn + pos) % SCTP_TSN_MODULO
                     seen.add(highest_seen_tsn)
 
